@@ -9,7 +9,7 @@ from vrun import U
 
 UNITS = []
 _off = set(x.strip() for x in os.environ.get('C14_NO_KNOWN', '').split(',') if x.strip())
-KNOWN = ''.join('#define KNOWN_F_C14_%s 1\n' % k for k in ('APPEND_FAIL',) if k not in _off)   # OVERREAD and CR_LOST are fixed in /repo (d005a2c, 81e7930): no longer carved out
+KNOWN = ''.join('#define KNOWN_F_C14_%s 1\n' % k for k in () if k not in _off)   # OVERREAD, CR_LOST and APPEND_FAIL are fixed in /repo: no longer carved out
 REPO = os.environ.get('VERIF_REPO', '/repo')
 
 
@@ -62,9 +62,7 @@ PARSE_ASSUMES = [
     'start-state truncation: at most PCAP=3 bytes in front of the candidate in the first stored piece (the code inspects the last two)',
     'part layer (parser->handle_data, parser->handle_boundary) replaced by logging stubs that leave current_part_mode arbitrary',
     'boundary_count <= INT_MAX - N (int counter, 2^31 delimiters)',
-    'KNOWN_F_C14_OVERREAD: executions in which a delimiter is completed by the last byte of the chunk are cut at the handle_boundary event',
-    'KNOWN_F_C14_CR_LOST: start states with a set-aside CR and a chunk beginning with CR (in data state) are excluded',
-    'KNOWN_F_C14_APPEND_FAIL: the set-aside copy (bstr_builder_append_mem on boundary_pieces) is assumed not to fail',
+    'the set-aside copy may fail (allocation failure): then only the error report and the well-formedness of the matcher state are demanded, not byte conservation',
 ]
 
 
@@ -85,7 +83,7 @@ def parse_unwind(n, bl, pcap):
 def parse_unit(name, n, bl, pcap, timeout, thorough_only=False, extra=''):
     dflt, us = parse_unwind(n, bl, pcap)
     UNITS.append(U(
-        name=name, props=['C14', 'C01'], kind='bounded', src=[], link=['htp_util.c'],
+        name=name, props=['C14', 'C01'] + (['C18'] if name == 'c14_parse_call' else []), kind='bounded', src=[], link=['htp_util.c'],
         replay='vin', contracts_inc=['c14_mpart.h'], pre=extra + PARSE_PRE,
         harness='void HARNESS(void) { VIN(vin_t); c14_parse_harness(in); CANARY(); }',
         defs={'quick': {'N': n, 'BL': bl, 'PCAP': pcap}},
